@@ -84,14 +84,14 @@ def native_race(version="2.2", race_child=1, at_write=0, children=(1,)):
             await asyncio.wait_for(entered.wait(), 2)
         except asyncio.TimeoutError:
             gate.set()
-            await asyncio.wait_for(listener, 2)
+            await asyncio.wait_for(listener, 20)
             return None, None  # the release made fewer writes than at_write: no such schedule
-        await asyncio.wait_for(gw.send(Message(1, race_child, 1, 0, 2, "new")), 2)
+        await asyncio.wait_for(gw.send(Message(1, race_child, 1, 0, 2, "new")), 20)
         sent.setdefault(race_child, []).append("new")
         gate.set()
-        await asyncio.wait_for(listener, 2)
+        await asyncio.wait_for(listener, 20)
         tr.reads.append(wake)
-        await asyncio.wait_for(gw.listen().__anext__(), 2)
+        await asyncio.wait_for(gw.listen().__anext__(), 20)
         return tr.writes, sent
     try:
         writes, sent = native.run(scenario())
